@@ -280,7 +280,7 @@ func propC14(c *Ctx) {
 	// ---- globals ---------------------------------------------------------------------------------
 	rg := c.Rule("globals", "Invoke runs a compiled callee on the child VM with the ROOT VM's globals", 1)
 	invoke := l.Method(modPath, "Invoker", "Invoke")
-	_, fInvVM := l.structField(modPath, "Invoker", "vm")
+	fInvVM, _ := l.invokerVMFields()
 	fGlobals := vf.field("globals")
 	if c.Anchor(rg, "Invoker.Invoke / Invoker.vm / VM.globals", invoke != nil && fInvVM >= 0 && fGlobals >= 0) {
 		n := 0
@@ -510,7 +510,7 @@ func propC06(c *Ctx) {
 
 	rtr := c.Rule("throw-reentry", "the unwinding routine is not re-entered from the functions it calls while the VM's frame state is only partly switched", 1)
 	ruleThrowReentry(c, rtr)
-	rie := c.Rule("invoke-err", "the error result of every Invoker.Invoke in the library is stored, returned or passed on: an error or recovered panic raised in a script callback reaches the calling script", 4)
+	rie := c.Rule("invoke-err", "the error result of every Invoker.Invoke in the library is stored, returned or passed on: an error or recovered panic raised in a script callback reaches the calling script", 2)
 	ruleInvokeErr(c, rie)
 	rfci := c.Rule("frame-claim-init", "the call routine stores every field of a call frame it claims before it returns successfully (a reused frame must not keep the error handlers of an earlier activation)", 3)
 	ruleFrameClaimInit(c, rfci, vf)
@@ -721,7 +721,7 @@ func propC09(c *Ctx) {
 	// ---- child-start-check -------------------------------------------------------------------------------
 	rcs := c.Rule("child-start-check", "Invoke tests the ROOT VM's abort flag after the child was registered and before it starts the child run (an abort that visited the pool before the registration is otherwise never seen by the child, whose own flag Run resets anyway)", 1)
 	invoke := l.Method(modPath, "Invoker", "Invoke")
-	_, fInvVM := l.structField(modPath, "Invoker", "vm")
+	fInvVM, _ := l.invokerVMFields()
 	aborted := l.Method(modPath, "VM", "Aborted")
 	if c.Anchor(rcs, "Invoker.Invoke / Invoker.vm / VM.Aborted", invoke != nil && fInvVM >= 0 && aborted != nil) {
 		eachInstr(invoke, func(ins ssa.Instruction) {
